@@ -233,11 +233,22 @@ def run_real_case(case):
     rf = os.path.join(d, f"req_{case['sim']}")
     reached = [l.split()[0] for l in open(rf).read().splitlines()] if os.path.exists(rf) else []
     res["fault_reached"] = str(case["req"]) in reached
+    # clean-up of a world whose run() did not shut it down (a hang): also bounded, shutdown itself may block
+    old2 = signal.signal(signal.SIGALRM, on_alarm)
+    remaining2 = signal.alarm(0)
     try:
+        signal.alarm(30)
         if world is not None and not world.loop.is_closed():
             world.shutdown()
+    except _WallTimeout:
+        res["cleanup_hang"] = True
     except BaseException:  # noqa
         pass
+    finally:
+        signal.alarm(0)
+        signal.signal(signal.SIGALRM, old2)
+        if remaining2:
+            signal.alarm(remaining2)
     res["fd_delta"] = len(os.listdir("/proc/self/fd")) - fds0
     shutil.rmtree(d, ignore_errors=True)
     return res
